@@ -4,6 +4,7 @@ import (
 	"bufio"
 	"encoding/json"
 	"fmt"
+	"reflect"
 	"sort"
 	"strings"
 	"testing"
@@ -455,6 +456,106 @@ func TestC13(t *testing.T) {
 			rec.Sample(c)
 		}
 	})
+	c13AfterAdditions(t, rec, cli)
+}
+
+// c13AfterAdditions: what is listed can be used to select - also for lints and profiles added at run time, and
+// in name lists of any length.
+func c13AfterAdditions(t *testing.T, rec *stats.Rec, cli string) {
+	g := lint.GlobalRegistry()
+	bad := func(sig, msg string, c c13Case) {
+		if rec.Report("c13", sig, msg, c) {
+			t.Errorf("c13 after additions: %s: %s", sig, msg)
+		}
+	}
+	for i := range lateKinds {
+		registerLate(i + 1)
+		names := g.Names()
+		known := map[string]bool{}
+		for _, n := range names {
+			known[n] = true
+		}
+		ln := lateName(i)
+		rec.Eval()
+		rec.Class("after_addition")
+		rec.NT(stats.HashS("addition", ln))
+		if !known[ln] {
+			bad("late-not-listed|"+ln, "a lint registered through the public API is not listed by Names()", c13Case{What: "late", Token: ln})
+			continue
+		}
+		// alone, and inside lists of 2 ... 40 listed names (include and exclude)
+		for _, k := range []int{1, 2, 15, 16, 17, 25, 40} {
+			list := []string{ln}
+			for j := 0; len(list) < k && j < len(names); j += 9 {
+				if names[j] != ln {
+					list = append(list, names[j])
+				}
+			}
+			c := c13Case{What: "late-list", Token: ln, Extra: fmt.Sprint(k)}
+			r, err := g.Filter(lint.FilterOptions{IncludeNames: list})
+			if err != nil {
+				bad("listed-name-rejected|include", fmt.Sprintf("include list of %d listed names (one of them registered late: %s) rejected: %v", len(list), ln, err), c)
+			} else if len(r.Names()) != len(list) {
+				bad("listed-name-ignored|include", fmt.Sprintf("include list of %d listed names selects %d lints", len(list), len(r.Names())), c)
+			}
+			r, err = g.Filter(lint.FilterOptions{ExcludeNames: list})
+			if err != nil {
+				bad("listed-name-rejected|exclude", fmt.Sprintf("exclude list of %d listed names (one of them registered late: %s) rejected: %v", len(list), ln, err), c)
+			} else if len(r.Names()) != len(names)-len(list) {
+				bad("listed-name-ignored|exclude", fmt.Sprintf("exclude list of %d listed names leaves %d of %d lints", len(list), len(r.Names()), len(names)), c)
+			}
+		}
+	}
+	// profiles registered at run time: what GetProfile hands back is what was registered, every name in it
+	// selects its lint (whatever the lint's kind), and an unknown name in it is rejected by Filter
+	someCRL, someOCSP := "", ""
+	if ls := g.RevocationListLints().Lints(); len(ls) > 0 {
+		someCRL = ls[0].Name
+	}
+	if ls := g.OcspResponseLints().Lints(); len(ls) > 0 {
+		someOCSP = ls[0].Name
+	}
+	good := lint.Profile{Name: "verif_profile_good", Description: "harness", LintNames: []string{"e_ca_country_name_missing", someCRL, someOCSP, lateName(0), lateName(1), lateName(2)}}
+	badp := lint.Profile{Name: "verif_profile_bad", Description: "harness", LintNames: []string{"e_ca_country_name_missing", "e_verif_no_such_lint"}}
+	onlyBad := lint.Profile{Name: "verif_profile_only_bad", Description: "harness", LintNames: []string{"e_verif_no_such_lint"}}
+	for _, p := range []lint.Profile{good, badp, onlyBad} {
+		lint.RegisterProfile(p)
+		rec.Eval()
+		rec.Class("runtime_profile")
+		c := c13Case{What: "runtime-profile", Token: p.Name}
+		got, ok := lint.GetProfile(p.Name)
+		if !ok {
+			bad("profile-not-found|"+p.Name, "GetProfile does not find a registered profile", c)
+			continue
+		}
+		if !reflect.DeepEqual(got.LintNames, p.LintNames) {
+			bad("profile-names-changed|"+p.Name, fmt.Sprintf("registered with %v, GetProfile returns %v", p.LintNames, got.LintNames), c)
+		}
+		listed := false
+		for _, ap := range lint.AllProfiles() {
+			if ap.Name == p.Name && reflect.DeepEqual(ap.LintNames, p.LintNames) {
+				listed = true
+			}
+		}
+		if !listed {
+			bad("profile-not-listed|"+p.Name, "AllProfiles does not list the registered profile with its names", c)
+		}
+		var opts lint.FilterOptions
+		opts.AddProfile(got)
+		r, err := g.Filter(opts)
+		if p.Name == "verif_profile_good" {
+			if err != nil {
+				bad("profile-rejected|"+p.Name, "a profile of listed lints is rejected: "+err.Error(), c)
+			} else if !reflect.DeepEqual(sortedCopy(r.Names()), sortedCopy(p.LintNames)) {
+				bad("profile-selection|"+p.Name, fmt.Sprintf("profile %v selects %v", p.LintNames, r.Names()), c)
+			}
+		} else if err == nil {
+			bad("unknown-name-accepted|runtime-profile", fmt.Sprintf("profile %s names a lint that does not exist, yet Filter accepts it (%d lints selected)", p.Name, len(r.Names())), c)
+		}
+		if cli != "" && p.Name != "verif_profile_good" {
+			_ = cli // profiles registered in this process are unknown to the separately built binary
+		}
+	}
 }
 
 // the source constants of v3/lint/source.go (harvested for C12; the listing here is
